@@ -422,7 +422,9 @@ func permute(c *vh.Ctx, ops []opSpec) []opSpec {
 	return o
 }
 
-func selfSigned(s pkig.CertSpec) bool { return s.Subj == s.Iss && s.Key%pkig.AltSPKI == s.SKey%pkig.AltSPKI }
+func selfSigned(s pkig.CertSpec) bool {
+	return s.Subj == s.Iss && s.Key%pkig.AltSPKI == s.SKey%pkig.AltSPKI
+}
 
 // opsFor: which certificates go into the graph and which are roots.
 // mode 0: self-signed CAs are roots, everything inserted;
